@@ -396,3 +396,119 @@ func c04EqualErrors(res *Result) {
 		}
 	}
 }
+
+type renderStringer struct{ f func() string }
+
+func (r renderStringer) String() string { return r.f() }
+
+var reentrantFilterOnce sync.Once
+var reentrantFilterFn func(s string) string
+var reentrantFilterMu sync.Mutex
+
+// reentrancy: user code the engine calls - a context function, a Stringer, a custom filter - renders
+// another template (or the same one, one level deep) of the same set while an execution is under
+// way.  The outer rendering equals the one in which the inner renderings were done beforehand and
+// only their text is handed in: nothing per execution (cycle, ifchanged, forloop, macro depth,
+// blocks, scratch buffers, autoescape) is shared between the nested executions.
+func reentrancy(res *Result, proj, sig string) {
+	reentrantFilterOnce.Do(func() {
+		pongo2.RegisterFilter("verif_render", func(in, param *pongo2.Value) (*pongo2.Value, *pongo2.Error) {
+			reentrantFilterMu.Lock()
+			f := reentrantFilterFn
+			reentrantFilterMu.Unlock()
+			if f == nil {
+				return in, nil
+			}
+			return pongo2.AsSafeValue(f(in.String())), nil
+		})
+	})
+	const inner = `{% for i in l %}{% cycle "a" "b" %}{% ifchanged i %}!{% endifchanged %}{{ forloop.Counter }}{% endfor %}{% macro m(x) %}<{{ x }}>{% endmacro %}{{ m(v) }}{% filter upper %}{{ v }}k{% endfilter %}{% autoescape off %}{{ v }}{% endautoescape %}{% block b %}[{{ v }}]{% endblock %}{% spaceless %}<i> </i>{% endspaceless %}`
+	const outer = `{% for j in l %}{% cycle "x" "y" %}{{ sub(j) }}{% ifchanged j %}?{% endifchanged %}{{ forloop.Counter }}{{ forloop.Last }};{% endfor %}{{ st }}|{% block b %}{{ sub("blk") }}{% endblock %}|{% macro o(y) %}({{ sub(y) }}){% endmacro %}{{ o("mac") }}|{% filter lower %}{{ sub("FLT") }}{% endfilter %}|{{ "<f>"|verif_render }}|{% with w=sub("w") %}{{ w }}{{ w }}{% endwith %}|{% if deep %}{{ self() }}{% endif %}`
+	for _, how := range []string{"Execute", "ExecuteBytes", "ExecuteWriter", "ExecuteWriterUnbuffered", "FromCache+Execute", "RenderTemplateString"} {
+		res.Cases++
+		files := map[string]string{"/inner.tpl": inner, "/outer.tpl": outer}
+		set := pongo2.NewSet("reentrant", &memLoader{files: files})
+		in, e1 := set.FromFile("/inner.tpl")
+		out, e2 := set.FromFile("/outer.tpl")
+		if e1 != nil || e2 != nil {
+			oracleFail(res, proj, sig, "compiling the re-entrancy templates", fmt.Sprint(e1, e2), "compile")
+			return
+		}
+		l := []string{"1", "1", "<2>"}
+		renderInner := func(v string) string {
+			ctx := pongo2.Context{"l": l, "v": v}
+			switch how {
+			case "ExecuteBytes":
+				b, err := in.ExecuteBytes(ctx)
+				if err != nil {
+					return "ERR " + err.Error()
+				}
+				return string(b)
+			case "ExecuteWriter", "ExecuteWriterUnbuffered":
+				var sink bytesSink
+				var err error
+				if how == "ExecuteWriter" {
+					err = in.ExecuteWriter(ctx, &sink)
+				} else {
+					err = in.ExecuteWriterUnbuffered(ctx, &sink)
+				}
+				if err != nil {
+					return "ERR " + err.Error()
+				}
+				return string(sink.b)
+			case "FromCache+Execute":
+				t, err := set.FromCache("/inner.tpl")
+				if err != nil {
+					return "ERR " + err.Error()
+				}
+				s, err := t.Execute(ctx)
+				if err != nil {
+					return "ERR " + err.Error()
+				}
+				return s
+			case "RenderTemplateString":
+				s, err := set.RenderTemplateString(inner, ctx)
+				if err != nil {
+					return "ERR " + err.Error()
+				}
+				return s
+			}
+			s, err := in.Execute(ctx)
+			if err != nil {
+				return "ERR " + err.Error()
+			}
+			return s
+		}
+		pre := map[string]string{}
+		for _, v := range []string{"1", "<2>", "blk", "mac", "FLT", "w", "<f>", "st"} {
+			pre[v] = renderInner(v)
+		}
+		run := func(live bool, deep bool) string {
+			sub := func(v string) *pongo2.Value {
+				if live {
+					return pongo2.AsSafeValue(renderInner(v))
+				}
+				return pongo2.AsSafeValue(pre[v])
+			}
+			reentrantFilterMu.Lock()
+			reentrantFilterFn = func(s string) string { return sub(s).String() }
+			reentrantFilterMu.Unlock()
+			var ctx pongo2.Context
+			ctx = pongo2.Context{"l": l, "sub": sub, "st": renderStringer{func() string { return sub("st").String() }}, "deep": deep,
+				"self": func() *pongo2.Value {
+					c2 := pongo2.Context{"l": l, "sub": ctx["sub"], "st": ctx["st"], "deep": false, "self": func() string { return "" }}
+					return pongo2.AsSafeValue(execOnce(out, c2).String())
+				}}
+			return within(20*time.Second, func() string { return execOnce(out, ctx).String() })
+		}
+		for _, deep := range []bool{false, true} {
+			if got, want := run(true, deep), run(false, deep); got != want {
+				oracleFail(res, proj, sig, fmt.Sprintf("outer template %s whose context function / Stringer / filter render %s through %s while it executes (nested self-execution: %v)", outer, inner, how, deep), got, want+" (the inner renderings done beforehand)")
+				break
+			}
+		}
+		reentrantFilterMu.Lock()
+		reentrantFilterFn = nil
+		reentrantFilterMu.Unlock()
+	}
+}
